@@ -6,6 +6,7 @@ import (
 	"math/rand"
 	"strconv"
 	"strings"
+	"time"
 )
 
 func hx(b []byte) string    { return "h" + hex.EncodeToString(b) }
@@ -81,3 +82,12 @@ func catch(f func()) (p string) {
 	f()
 	return ""
 }
+
+func timeAfter(sec int) <-chan time.Time { return time.After(time.Duration(sec) * time.Second) }
+
+// After a few hangs the remaining cases of a run are skipped: every hung goroutine keeps
+// spinning and the verdict is already decided.
+var hangs int
+
+func noteHang()          { hangs++ }
+func tooManyHangs() bool { return hangs >= 3 }
